@@ -136,6 +136,12 @@ def reader_failures_of_case(c):
             elif part.startswith("LEAK"):
                 if c["args"].startswith(("t ", "w ")):
                     promise = "parked-in-promise" in tags or any(t.startswith("leak=") and ("async.resolve" in t or "async.reject" in t) for t in tags)
+                    if "refresh-silent-family" in tags:
+                        out.append(("property", "after Transport.CloseIdleConnections / Writer.Close, connections of the pool's background metadata refresh that the broker "
+                                                "never answered are still open and their (*conn).run goroutines still blocked in RoundTrip: a request handed to a connection "
+                                                "must carry the context whose deadline bounds it (connPool.discover: the per-refresh WithTimeout context, not the pool "
+                                                "context) — theorem C09_t_busy_connection_bounded and the obligation stated at TDeadline in Model/TransportConnect.v", None))
+                        continue
                     if "connect-race-family" in tags or "orphan-conn" in tags:
                         out.append(("property", "a Transport connection whose set-up completed after its requester had left (context ended) and after the pool was "
                                                 "closed (Transport.CloseIdleConnections / Writer.Close) is neither pooled nor closed: its (*conn).run goroutine waits for "
@@ -267,7 +273,7 @@ def reader_half(ctx):
     samples = [c["line"][:400] + " | " + c["go"][:60] + " | " + c["feats"][:160]
                for c in ([x for x in e2e if x["args"].startswith("g")][:2] + [x for x in e2e if x["args"].startswith("p")][:1]
                          + [x for x in cases if x["op"] == "det"][:1])]
-    tleaks = [c for c in e2e if c["args"].startswith("t ") and "LEAK" in c["go"] and not ({"late-answer-family", "parked-in-promise", "connect-race-family", "orphan-conn"} & set(_tags(c)))]
+    tleaks = [c for c in e2e if c["args"].startswith("t ") and "LEAK" in c["go"] and not ({"late-answer-family", "parked-in-promise", "connect-race-family", "orphan-conn", "refresh-silent-family"} & set(_tags(c)))]
     return dict(
         evaluations=len(cases), distinct_nontrivial=len(dn), hist=hist, samples=samples, failures=failures,
         rule="Reader half: cases from the same PRNG seed in harness/cmd/c09r: concurrent lifecycle programs on the real kafka.Reader (partition mode and group "
@@ -279,7 +285,8 @@ def reader_half(ctx):
              "connection 1x..3x later, then Close + CloseIdleConnections + goroutine / connection census; the silent-step family (the peer of a partition reader's "
              "leader lookup falls silent for good after accept / after ApiVersions / after the Metadata request / mid-response / at Fetch; Close; census while the fake "
              "keeps its side open); the connect-race family (a Transport connection's set-up, slower than the request's context, completes after the pool was closed / "
-             "while it is open / fails late); the generation-self-end family; deterministic single-threaded scenarios (fetch k of N, commit, Close, fetch again) "
+             "while it is open / fails late; the broker stops answering the pool's background metadata refresh, 3-4 TTLs, then CloseIdleConnections / Writer.Close); "
+             "the generation-self-end family; deterministic single-threaded scenarios (fetch k of N, commit, Close, fetch again) "
              "compared with the model's run; n CommitMessages after Close; an e2e case counts when the implementation ran it under watchdogs and the extracted "
              "monitors judged its timeline; non-trivial = any feature tag beyond the fake used and kind ok/idle; distinct by hash of op+args.",
         extra=dict(reader_go_run_s=round(r["go_time"], 1), reader_scenarios=len(cases), reader_e2e=len(e2e),
@@ -287,6 +294,7 @@ def reader_half(ctx):
                    late_answer_scenarios=sum(1 for c in e2e if "late-answer-family" in _tags(c)),
                    silent_step_scenarios=sum(1 for c in e2e if "silent-step-family" in _tags(c)),
                    connect_race_scenarios=sum(1 for c in e2e if "connect-race-family" in _tags(c)),
+                   refresh_silent_scenarios=sum(1 for c in e2e if "refresh-silent-family" in _tags(c)),
                    reader_failing_case_count=failing,
                    reader_leave_excused=sum(1 for c in e2e if "leave" in str(c.get("model")) and any(t in ("leave-faulted", "evicted") for t in _tags(c))),
                    transport_observation=(f"{len(tleaks)} Transport scenario(s): after a round trip was abandoned through its context while the broker stays silent, "
